@@ -1,19 +1,21 @@
 /-
   Aqv.Model.EvmRun — program-level model for property C08 (core-only): Interpreter.Run of core/vm/interpreter.go restricted
   to the opcodes that need no state database (arithmetic, comparison, bitwise, shifts, SHA3, environment constants,
-  call-data / code access, stack, memory, control flow, RETURN / REVERT / STOP), one frame, no calls.
+  call-data / code / return-data access, stack, memory, control flow, RETURN / REVERT / STOP), one frame, no calls.
 
-  One loop (`run`), two instantiations of its per-step "prologue":
-    * Impl (`implPre`)  — driven by the GENERATED table (Aqv.Gen.VmTable): validity, validateStack arities, the memory-size
-                          function and the gas function are looked up BY THE NAMES the compiled table holds and evaluated with
-                          the UInt64 models of Aqv.Model.EvmOps (overflow outcomes included); results from the op* models.
-    * Spec (`specPre`)  — driven by the hand-written table (Aqv.Model.EvmSpec): Yellow-Paper memory expansion and gas on Nat,
-                          results from the BitVec 256 semantics, D(c) for jumps.
-  The data-movement part of `exec` (PUSH/DUP/SWAP/MLOAD/MSTORE/MSTORE8/CALLDATA*/CODECOPY/SHA3/PC/MSIZE/GAS/RETURN) is shared:
-  it is a transcription of both the Go bodies and the Yellow-Paper definitions (they coincide wherever the gas paid allows
-  the access at all).
+  One loop (`run`), instantiated twice:
+    * Impl — `implLookup` / `implPre` / `implExec`: the Go code. The table is the GENERATED one (Aqv.Gen.VmTable); which
+      memory-size and gas function an opcode uses is decided BY THE FUNCTION NAMES the compiled table holds (`implEntry`); gas
+      and memory sizes are computed with the UInt64 models of Aqv.Model.EvmOps (overflow outcomes included); data movement
+      mirrors makePush / Stack.dup / Stack.swap / Memory.Get / GetPtr / Set / getDataBig / PaddedBigBytes / opReturnDataCopy
+      including their Uint64() truncations and the places where Go would panic (explicit outcome `panic`).
+    * Spec — `specLookup` / `specPre` / `specExec`: the Yellow Paper. Hand-written table (Aqv.Model.EvmSpec), memory expansion
+      and gas on Nat, results from the BitVec 256 semantics, D(c) for jumps, data movement defined pointwise
+      (`specRead`: byte i of the result is data[off+i] or 0; `specWrite`: memory with [off, off+n) replaced).
+  `Aqv.Props.C08.run_refines_spec_partial`: for every program, epoch and gas budget the two produce the same outcome unless a
+  step with operands in one of the two recorded deviation sets (`devSet`) is reached.
+  Keccak is a parameter `H` (the driver passes Aqv.Keccak.keccak256).
 -/
-import Aqv.Base.Keccak
 import Aqv.Model.EvmOps
 import Aqv.Model.EvmSpec
 import Aqv.Model.EvmSelect
@@ -21,23 +23,31 @@ namespace Aqv.Evm
 open Aqv.Big Aqv.Gen.VmTable
 
 inductive Fail where
-  | invalid | underflow | limit | oog | overflow | badjump
+  | invalid | underflow | limit | oog | overflow | badjump | rdoob | panic
 deriving DecidableEq, Repr
 
 def Fail.name : Fail → String
-  | .invalid => "invalid" | .underflow => "underflow" | .limit => "limit" | .oog => "oog" | .overflow => "overflow" | .badjump => "badjump"
+  | .invalid => "invalid" | .underflow => "underflow" | .limit => "limit" | .oog => "oog" | .overflow => "overflow"
+  | .badjump => "badjump" | .rdoob => "rdoob" | .panic => "panic"
 
 inductive Outcome where
   | ok (ret : Bytes) (gasLeft : Nat) (stack : List Int)      -- stack as the halting instruction found it
   | revert (ret : Bytes) (gasLeft : Nat) (stack : List Int)
   | fail (f : Fail)
   | skip (op : Nat)      -- valid opcode outside the modelled subset
-  | fuel                 -- cannot happen: every non-halting step costs gas
-deriving Repr
+  | deviation            -- only with a guard: a step with operands in a recorded deviation set was reached
+  | fuel                 -- cannot happen with fuel > gas: every non-halting step costs gas
+deriving DecidableEq, Repr
+
+/-- the specification does not distinguish the kinds of exceptional halt -/
+def Outcome.norm : Outcome → Outcome
+  | .fail _ => .fail .oog
+  | o => o
 
 structure Env where
   code : Array UInt8
-  calldata : Array UInt8
+  calldata : Bytes
+  returndata : Bytes      -- Interpreter.returnData (empty unless a call has returned; fixed here: no calls)
   address : Nat
   caller : Nat
   origin : Nat
@@ -52,50 +62,73 @@ structure Env where
 structure Machine where
   pc : Nat
   stack : List Int          -- head = top
-  mem : Array UInt8
-  last : UInt64             -- Memory.lastGasCost
+  mem : Bytes
+  last : UInt64             -- Memory.lastGasCost (the Spec keeps C_mem(active words) here so that machines can be compared)
   gas : Nat
 
-/-- what the prologue of one step decides: bytes the memory must have (word multiple; 0 = no resize), the cost, and the
-    new `lastGasCost` -/
+/-- what the prologue of one step decides: bytes the memory must span (word multiple; 0 = nothing), the cost, and the new
+    `lastGasCost` -/
 structure Pre where
   memorySize : Nat
   cost : Nat
   last : UInt64
+deriving DecidableEq
 
-/-- validity / arity / flags of an opcode as seen by the loop -/
-structure OpRow where
+/-- which operands give the memory range an instruction touches -/
+inductive MemKind where
+  | none | b0b1 | b0b2 | b0c32 | b0c1 | unknown
+deriving DecidableEq, Repr
+
+/-- which gas function an instruction has -/
+inductive GasKind where
+  | const (g : Nat) | exp | sha3 | copy | veryLowMem | memOnly | unknown
+deriving DecidableEq, Repr
+
+/-- an instruction-table entry as the loop uses it -/
+structure Entry where
   pops : Nat
   pushes : Nat
   halts : Bool
   jumps : Bool
   reverts : Bool
+  memK : MemKind
+  gasK : GasKind
+deriving DecidableEq, Repr
 
 abbrev back (st : List Int) (n : Nat) : Int := st.getD n 0
 
-/-- opcode-indexed views of the tables (closed terms: built once per process) -/
-def mkIndex {α : Type} (key : α → Nat) (rows : List α) : Array (Option α) :=
-  rows.foldl (fun acc r => if key r < 256 then acc.set! (key r) (some r) else acc) (Array.replicate 256 none)
+/-- (offset, length) operands of the touched memory range -/
+def touchOf (k : MemKind) (st : List Int) : Int × Int :=
+  match k with
+  | .b0b1 => (back st 0, back st 1)
+  | .b0b2 => (back st 0, back st 2)
+  | .b0c32 => (back st 0, 32)
+  | .b0c1 => (back st 0, 1)
+  | _ => (0, 0)
 
-def specIndex : Array (Array (Option EvmSpec.Row)) :=
-  #[mkIndex (·.op) (EvmSpec.opcodeTable 0), mkIndex (·.op) (EvmSpec.opcodeTable 1), mkIndex (·.op) (EvmSpec.opcodeTable 2),
-    mkIndex (·.op) (EvmSpec.opcodeTable 3)]
+-- ---------------------------------------------------------------------------------------------------------------------
+-- instruction decoding (shared)
 
-def specRowAt (level opc : Nat) : Option EvmSpec.Row := ((specIndex.getD (min level 3) #[]).getD opc none)
+inductive Instr where
+  | stop | alu | sha3 | address | origin | caller | callvalue | calldataload | calldatasize | calldatacopy | codesize | codecopy
+  | gasprice | returndatasize | returndatacopy | coinbase | timestamp | number | difficulty | gaslimit | pop | mload | mstore
+  | mstore8 | jump | jumpi | pc | msize | gas | jumpdest | push (n : Nat) | dup (n : Nat) | swap (n : Nat) | ret | other
+deriving DecidableEq, Repr
 
-def implIndexFrontier : Array (Option OpInfo) := mkIndex (·.op) frontier
-def implIndexHomestead : Array (Option OpInfo) := mkIndex (·.op) homestead
-def implIndexByzantium : Array (Option OpInfo) := mkIndex (·.op) byzantium
-def implIndexConstantinople : Array (Option OpInfo) := mkIndex (·.op) constantinople
-def implIndexSpring : Array (Option OpInfo) := mkIndex (·.op) spring
-
-def implInfoAt (e : Epoch) (opc : Nat) : Option OpInfo :=
-  (match e with
-   | .frontier => implIndexFrontier
-   | .homestead => implIndexHomestead
-   | .byzantium => implIndexByzantium
-   | .constantinople => implIndexConstantinople
-   | .spring => implIndexSpring).getD opc none
+def decode (opc : Nat) : Instr :=
+  if 0x60 ≤ opc ∧ opc ≤ 0x7f then .push (opc - 0x5f)
+  else if 0x80 ≤ opc ∧ opc ≤ 0x8f then .dup (opc - 0x7f)
+  else if 0x90 ≤ opc ∧ opc ≤ 0x9f then .swap (opc - 0x8f)
+  else if (0x01 ≤ opc ∧ opc ≤ 0x0b) ∨ (0x10 ≤ opc ∧ opc ≤ 0x1d) then .alu
+  else
+    match opc with
+    | 0x00 => .stop | 0x20 => .sha3 | 0x30 => .address | 0x32 => .origin | 0x33 => .caller | 0x34 => .callvalue
+    | 0x35 => .calldataload | 0x36 => .calldatasize | 0x37 => .calldatacopy | 0x38 => .codesize | 0x39 => .codecopy
+    | 0x3a => .gasprice | 0x3d => .returndatasize | 0x3e => .returndatacopy | 0x41 => .coinbase | 0x42 => .timestamp
+    | 0x43 => .number | 0x44 => .difficulty | 0x45 => .gaslimit | 0x50 => .pop | 0x51 => .mload | 0x52 => .mstore
+    | 0x53 => .mstore8 | 0x56 => .jump | 0x57 => .jumpi | 0x58 => .pc | 0x59 => .msize | 0x5a => .gas | 0x5b => .jumpdest
+    | 0xf3 => .ret | 0xfd => .ret
+    | _ => .other
 
 -- ---------------------------------------------------------------------------------------------------------------------
 -- results of the computational opcodes, by opcode
@@ -131,262 +164,437 @@ def implAlu (opc : Nat) (a : List Int) : Option Int :=
 
 def w256 (x : Int) : EvmSpec.W := BitVec.ofNat 256 x.toNat
 
-/-- `sarKnown` = evaluate the Spec with the one recorded deviation (SAR of zero by ≥ 256 gives 2²⁵⁶−1) patched in, so that
-    the driver can tell "differs from the Spec only by the known finding" from any other difference. -/
-def specAlu (sarKnown : Bool) (opc : Nat) (a : List Int) : Option Int :=
-  let r : Option EvmSpec.W :=
-    match opc, a.map w256 with
-    | 0x01, [x, y] => some (EvmSpec.add x y)
-    | 0x02, [x, y] => some (EvmSpec.mul x y)
-    | 0x03, [x, y] => some (EvmSpec.sub x y)
-    | 0x04, [x, y] => some (EvmSpec.div x y)
-    | 0x05, [x, y] => some (EvmSpec.sdiv x y)
-    | 0x06, [x, y] => some (EvmSpec.mod x y)
-    | 0x07, [x, y] => some (EvmSpec.smod x y)
-    | 0x08, [x, y, z] => some (EvmSpec.addmod x y z)
-    | 0x09, [x, y, z] => some (EvmSpec.mulmod x y z)
-    | 0x0a, [x, y] => some (EvmSpec.exp x y)
-    | 0x0b, [x, y] => some (EvmSpec.signextend x y)
-    | 0x10, [x, y] => some (EvmSpec.lt x y)
-    | 0x11, [x, y] => some (EvmSpec.gt x y)
-    | 0x12, [x, y] => some (EvmSpec.slt x y)
-    | 0x13, [x, y] => some (EvmSpec.sgt x y)
-    | 0x14, [x, y] => some (EvmSpec.eq x y)
-    | 0x15, [x] => some (EvmSpec.iszero x)
-    | 0x16, [x, y] => some (EvmSpec.and x y)
-    | 0x17, [x, y] => some (EvmSpec.or x y)
-    | 0x18, [x, y] => some (EvmSpec.xor x y)
-    | 0x19, [x] => some (EvmSpec.not x)
-    | 0x1a, [x, y] => some (EvmSpec.byte x y)
-    | 0x1b, [x, y] => some (EvmSpec.shl x y)
-    | 0x1c, [x, y] => some (EvmSpec.shr x y)
-    | 0x1d, [x, y] =>
-      if sarKnown ∧ x.toNat ≥ 256 ∧ y = 0 then some (BitVec.allOnes 256) else some (EvmSpec.sar x y)
-    | _, _ => none
-  r.map fun v => Int.ofNat v.toNat
+def specAluW (opc : Nat) (a : List EvmSpec.W) : Option EvmSpec.W :=
+  match opc, a with
+  | 0x01, [x, y] => some (EvmSpec.add x y)
+  | 0x02, [x, y] => some (EvmSpec.mul x y)
+  | 0x03, [x, y] => some (EvmSpec.sub x y)
+  | 0x04, [x, y] => some (EvmSpec.div x y)
+  | 0x05, [x, y] => some (EvmSpec.sdiv x y)
+  | 0x06, [x, y] => some (EvmSpec.mod x y)
+  | 0x07, [x, y] => some (EvmSpec.smod x y)
+  | 0x08, [x, y, z] => some (EvmSpec.addmod x y z)
+  | 0x09, [x, y, z] => some (EvmSpec.mulmod x y z)
+  | 0x0a, [x, y] => some (EvmSpec.exp x y)
+  | 0x0b, [x, y] => some (EvmSpec.signextend x y)
+  | 0x10, [x, y] => some (EvmSpec.lt x y)
+  | 0x11, [x, y] => some (EvmSpec.gt x y)
+  | 0x12, [x, y] => some (EvmSpec.slt x y)
+  | 0x13, [x, y] => some (EvmSpec.sgt x y)
+  | 0x14, [x, y] => some (EvmSpec.eq x y)
+  | 0x15, [x] => some (EvmSpec.iszero x)
+  | 0x16, [x, y] => some (EvmSpec.and x y)
+  | 0x17, [x, y] => some (EvmSpec.or x y)
+  | 0x18, [x, y] => some (EvmSpec.xor x y)
+  | 0x19, [x] => some (EvmSpec.not x)
+  | 0x1a, [x, y] => some (EvmSpec.byte x y)
+  | 0x1b, [x, y] => some (EvmSpec.shl x y)
+  | 0x1c, [x, y] => some (EvmSpec.shr x y)
+  | 0x1d, [x, y] => some (EvmSpec.sar x y)
+  | _, _ => none
+
+def specAlu (opc : Nat) (a : List Int) : Option Int :=
+  (specAluW opc (a.map w256)).map fun v => Int.ofNat v.toNat
 
 -- ---------------------------------------------------------------------------------------------------------------------
--- data movement shared by Impl and Spec
+-- Impl data movement (Go)
 
-def padTo (bs : Bytes) (n : Nat) : Bytes := bs ++ List.replicate (n - bs.length) 0
+/-- common.RightPadBytes(slice, l) -/
+def rightPad (slice : Bytes) (l : Nat) : Bytes :=
+  if l < slice.length then slice else slice ++ List.replicate (l - slice.length) 0
 
-/-- getDataBig(data, start, size): `data[min(start,len) : min(start+size,len)]` right-padded to size -/
-def getData (data : Array UInt8) (start size : Nat) : Bytes :=
-  let s := min start data.size
-  let e := min (s + size) data.size
-  padTo ((data.extract s e).toList) size
+/-- getDataBig(data, start, size): `data[min(start,len) : min(s+size,len)]`, `RightPadBytes(…, int(size.Uint64()))` -/
+def getDataBig (data : Bytes) (start size : Nat) : Bytes :=
+  let dlen := data.length
+  let s := min start dlen
+  let e := min (s + size) dlen
+  rightPad ((data.drop s).take (e - s)) (size % 2 ^ 64)
 
-def memSlice (mem : Array UInt8) (off size : Nat) : Bytes := (mem.extract off (off + size)).toList
+/-- Memory.Get / GetPtr(offset, size): nil for size 0, nil if the store does not reach offset, `store[offset:offset+size]`
+    otherwise (`none` = slice bounds panic) -/
+def memGet (mem : Bytes) (off size : Nat) : Option Bytes :=
+  if size = 0 then some []
+  else if mem.length > off then
+    (if off + size ≤ mem.length then some ((mem.drop off).take size) else none)
+  else some []
 
-def memWrite (mem : Array UInt8) (off : Nat) (bs : Bytes) : Array UInt8 :=
-  (mem.extract 0 off) ++ bs.toArray ++ (mem.extract (off + bs.length) mem.size)
+/-- Memory.Set(offset, size, value): panics if size > len(store); for size > 0 `copy(store[offset:offset+size], value)` -/
+def memSet (mem : Bytes) (off size : Nat) (value : Bytes) : Option Bytes :=
+  if size > mem.length then none
+  else if size > 0 then
+    (if off + size ≤ mem.length then
+      let n := min size value.length
+      some (mem.take off ++ value.take n ++ mem.drop (off + n))
+    else none)
+  else some mem
 
-def word32 (v : Nat) : Bytes :=
-  let b := beBytes (v % 2 ^ 256)
-  List.replicate (32 - b.length) 0 ++ b
+/-- math.PaddedBigBytes(v, n) -/
+def paddedBigBytes (v : Nat) (n : Nat) : Bytes :=
+  if natBitLen v / 8 ≥ n then beBytes v
+  else
+    let b := beBytes v
+    List.replicate (n - b.length) 0 ++ b
 
-def memGrow (mem : Array UInt8) (size : Nat) : Array UInt8 :=
-  if mem.size < size then mem ++ Array.replicate (size - mem.size) 0 else mem
+/-- Memory.Resize -/
+def memGrow (mem : Bytes) (size : Nat) : Bytes :=
+  if mem.length < size then mem ++ List.replicate (size - mem.length) 0 else mem
+
+-- ---------------------------------------------------------------------------------------------------------------------
+-- Spec data movement (pointwise)
+
+/-- n bytes starting at `off`; positions past the end read as zero -/
+def specRead (data : Bytes) (off n : Nat) : Bytes :=
+  let d := data.drop off
+  (List.range n).map fun i => d.getD i 0
+
+/-- memory with positions [off, off + |bs|) replaced by bs (positions outside the memory do not exist) -/
+def specWrite (mem : Bytes) (off : Nat) (bs : Bytes) : Bytes :=
+  mem.mapIdx fun i b => if off ≤ i ∧ i < off + bs.length then bs.getD (i - off) 0 else b
+
+/-- the 32 bytes of a word, most significant first -/
+def specWord (v : Nat) : Bytes := (List.range 32).map fun i => UInt8.ofNat (v / 256 ^ (31 - i) % 256)
 
 inductive Step where
-  | next (m : Machine)
-  | halt (ret : Bytes)
+  | cont (ret : Bytes) (m : Machine)
   | fail (f : Fail)
   | skip
 
-/-- execute one (already validated, charged, memory-resized) instruction. `alu` gives the computational results,
-    `jumpOk` the jump-destination predicate. -/
-def exec (env : Env) (alu : Nat → List Int → Option Int) (jumpOk : Int → Bool) (row : OpRow) (opc : Nat) (m : Machine) : Step :=
-  let st := m.stack
-  let args := st.take row.pops
-  let rest := st.drop row.pops
-  let push (v : Int) : Step := .next { m with stack := v :: rest, pc := m.pc + 1 }
-  let pushN (v : Nat) : Step := push (Int.ofNat v)
-  if 0x60 ≤ opc ∧ opc ≤ 0x7f then
-    -- makePush: code[pc+1 : pc+1+n] right-padded with zeros
-    let n := opc - 0x5f
-    let v := beNat (getData env.code (m.pc + 1) n)
-    .next { m with stack := Int.ofNat v :: st, pc := m.pc + n + 1 }
-  else if 0x80 ≤ opc ∧ opc ≤ 0x8f then
-    .next { m with stack := back st (opc - 0x80) :: st, pc := m.pc + 1 }
-  else if 0x90 ≤ opc ∧ opc ≤ 0x9f then
-    let n := opc - 0x8f
-    let top := back st 0
-    let nth := back st n
-    .next { m with stack := nth :: ((st.drop 1).set (n - 1) top), pc := m.pc + 1 }
-  else
-    match opc with
-    | 0x00 => .halt []
-    | 0x20 => pushN (beNat (Aqv.Keccak.keccak256 (memSlice m.mem (back st 0).toNat (back st 1).toNat)))
-    | 0x30 => pushN env.address
-    | 0x32 => pushN env.origin
-    | 0x33 => pushN env.caller
-    | 0x34 => pushN env.callvalue
-    | 0x35 => pushN (beNat (getData env.calldata (back st 0).toNat 32))
-    | 0x36 => pushN env.calldata.size
-    | 0x37 =>
-      let len := (back st 2).toNat
-      .next { m with stack := rest, pc := m.pc + 1,
-                     mem := if len = 0 then m.mem else memWrite m.mem (back st 0).toNat (getData env.calldata (back st 1).toNat len) }
-    | 0x38 => pushN env.code.size
-    | 0x39 =>
-      let len := (back st 2).toNat
-      .next { m with stack := rest, pc := m.pc + 1,
-                     mem := if len = 0 then m.mem else memWrite m.mem (back st 0).toNat (getData env.code (back st 1).toNat len) }
-    | 0x3a => pushN env.gasprice
-    | 0x3d => pushN 0                    -- RETURNDATASIZE: no call has been made in this frame
-    | 0x41 => pushN env.coinbase
-    | 0x42 => pushN env.timestamp
-    | 0x43 => pushN env.number
-    | 0x44 => pushN env.difficulty
-    | 0x45 => pushN env.gaslimit
-    | 0x50 => .next { m with stack := rest, pc := m.pc + 1 }
-    | 0x51 => pushN (beNat (memSlice m.mem (back st 0).toNat 32))
-    | 0x52 => .next { m with stack := rest, pc := m.pc + 1, mem := memWrite m.mem (back st 0).toNat (word32 (back st 1).toNat) }
-    | 0x53 => .next { m with stack := rest, pc := m.pc + 1, mem := memWrite m.mem (back st 0).toNat [UInt8.ofNat ((back st 1).toNat % 256)] }
-    | 0x56 =>
-      if jumpOk (back st 0) then .next { m with stack := rest, pc := (back st 0).toNat } else .fail .badjump
-    | 0x57 =>
-      if back st 1 ≠ 0 then
-        (if jumpOk (back st 0) then .next { m with stack := rest, pc := (back st 0).toNat } else .fail .badjump)
-      else .next { m with stack := rest, pc := m.pc + 1 }
-    | 0x58 => pushN m.pc
-    | 0x59 => pushN m.mem.size
-    | 0x5a => pushN m.gas
-    | 0x5b => .next { m with pc := m.pc + 1 }
-    | 0xf3 | 0xfd =>
-      let size := (back st 1).toNat
-      .halt (if size = 0 then [] else memSlice m.mem (back st 0).toNat size)
-    | _ =>
-      match alu opc args with
-      | some r => push r
-      | none => .skip
+def pushI (m : Machine) (rest : List Int) (v : Int) : Step := .cont [] { m with stack := v :: rest }
+def pushN (m : Machine) (rest : List Int) (v : Nat) : Step := pushI m rest (Int.ofNat v)
 
-/-- Interpreter.Run: fetch (STOP past the end), table lookup, validateStack, prologue (memory size, gas), resize, execute. -/
-def run (env : Env) (lookup : Nat → Option OpRow) (pre : Nat → Machine → Except Outcome Pre)
-    (alu : Nat → List Int → Option Int) (jumpOk : Int → Bool) : Nat → Machine → Outcome
+/-- Impl: execute one (already validated, charged, memory-resized) instruction; `pc` is left to the loop unless the
+    instruction sets it (`*pc = …` in Go). -/
+def implExec (env : Env) (H : Bytes → Bytes) (en : Entry) (opc : Nat) (m : Machine) : Step :=
+  let st := m.stack
+  let rest := st.drop en.pops
+  match decode opc with
+  | .push n =>
+    -- makePush: startMin = min(codeLen, pc+1), endMin = min(codeLen, startMin+n), RightPadBytes, *pc += n
+    let code := env.code.toList
+    let startMin := min code.length (m.pc + 1)
+    let endMin := min code.length (startMin + n)
+    let v := beNat (rightPad ((code.drop startMin).take (endMin - startMin)) n)
+    .cont [] { m with stack := Int.ofNat v :: st, pc := m.pc + n }
+  | .dup n =>
+    -- Stack.dup: push(data[len-n]) on the slice whose LAST element is the top
+    let data := st.reverse
+    .cont [] { m with stack := data.getD (data.length - n) 0 :: st }
+  | .swap k =>
+    -- Stack.swap(k+1): data[len-(k+1)], data[len-1] = data[len-1], data[len-(k+1)]
+    let data := st.reverse
+    let len := data.length
+    let a := data.getD (len - (k + 1)) 0
+    let b := data.getD (len - 1) 0
+    .cont [] { m with stack := ((data.set (len - (k + 1)) b).set (len - 1) a).reverse }
+  | .stop => .cont [] m
+  | .alu =>
+    match implAlu opc (st.take en.pops) with
+    | some r => pushI m rest r
+    | none => .skip
+  | .sha3 =>
+    match memGet m.mem (uint64 (back st 0)) (uint64 (back st 1)) with
+    | some data => pushN m rest (beNat (H data))
+    | none => .fail .panic
+  | .address => pushN m rest env.address
+  | .origin => pushN m rest env.origin
+  | .caller => pushN m rest env.caller
+  | .callvalue => pushN m rest env.callvalue
+  | .calldataload => pushN m rest (beNat (getDataBig env.calldata (back st 0).toNat 32))
+  | .calldatasize => pushN m rest env.calldata.length
+  | .calldatacopy =>
+    match memSet m.mem (uint64 (back st 0)) (uint64 (back st 2)) (getDataBig env.calldata (back st 1).toNat (back st 2).toNat) with
+    | some mem' => .cont [] { m with stack := rest, mem := mem' }
+    | none => .fail .panic
+  | .codesize => pushN m rest env.code.size
+  | .codecopy =>
+    match memSet m.mem (uint64 (back st 0)) (uint64 (back st 2)) (getDataBig env.code.toList (back st 1).toNat (back st 2).toNat) with
+    | some mem' => .cont [] { m with stack := rest, mem := mem' }
+    | none => .fail .panic
+  | .gasprice => pushN m rest env.gasprice
+  | .returndatasize => pushN m rest env.returndata.length
+  | .returndatacopy =>
+    -- end := dataOffset + length; if end.BitLen() > 64 || len(returnData) < end.Uint64() → errReturnDataOutOfBounds
+    let dend := back st 1 + back st 2
+    if bitLen dend > 64 ∨ env.returndata.length < uint64 dend then .fail .rdoob
+    else
+      let doff := uint64 (back st 1)
+      match memSet m.mem (uint64 (back st 0)) (uint64 (back st 2)) ((env.returndata.drop doff).take (uint64 dend - doff)) with
+      | some mem' => .cont [] { m with stack := rest, mem := mem' }
+      | none => .fail .panic
+  | .coinbase => pushN m rest env.coinbase
+  | .timestamp => pushN m rest env.timestamp
+  | .number => pushN m rest env.number
+  | .difficulty => pushN m rest env.difficulty
+  | .gaslimit => pushN m rest env.gaslimit
+  | .pop => .cont [] { m with stack := rest }
+  | .mload =>
+    match memGet m.mem (uint64 (back st 0)) 32 with
+    | some data => pushN m rest (beNat data)
+    | none => .fail .panic
+  | .mstore =>
+    match memSet m.mem (uint64 (back st 0)) 32 (paddedBigBytes (back st 1).toNat 32) with
+    | some mem' => .cont [] { m with stack := rest, mem := mem' }
+    | none => .fail .panic
+  | .mstore8 =>
+    -- memory.store[off] = byte(val & 0xff)
+    let off := uint64 (back st 0)
+    if off < m.mem.length then .cont [] { m with stack := rest, mem := m.mem.set off (UInt8.ofNat (uint64 (back st 1) % 256)) }
+    else .fail .panic
+  | .jump =>
+    if hasJumpdest env.code (back st 0) then .cont [] { m with stack := rest, pc := uint64 (back st 0) } else .fail .badjump
+  | .jumpi =>
+    if back st 1 ≠ 0 then
+      (if hasJumpdest env.code (back st 0) then .cont [] { m with stack := rest, pc := uint64 (back st 0) } else .fail .badjump)
+    else .cont [] { m with stack := rest, pc := m.pc + 1 }
+  | .pc => pushN m rest m.pc
+  | .msize => pushN m rest m.mem.length
+  | .gas => pushN m rest m.gas
+  | .jumpdest => .cont [] m
+  | .ret =>
+    match memGet m.mem (uint64 (back st 0)) (uint64 (back st 1)) with
+    | some data => .cont data { m with stack := rest }
+    | none => .fail .panic
+  | .other => .skip
+
+/-- Spec: the Yellow Paper's definitions -/
+def specExec (env : Env) (H : Bytes → Bytes) (en : Entry) (opc : Nat) (m : Machine) : Step :=
+  let st := m.stack
+  let rest := st.drop en.pops
+  match decode opc with
+  | .push n => .cont [] { m with stack := Int.ofNat (beNat (specRead env.code.toList (m.pc + 1) n)) :: st, pc := m.pc + n }
+  | .dup n => .cont [] { m with stack := back st (n - 1) :: st }
+  | .swap k => .cont [] { m with stack := (st.set 0 (back st k)).set k (back st 0) }
+  | .stop => .cont [] m
+  | .alu =>
+    match specAlu opc (st.take en.pops) with
+    | some r => pushI m rest r
+    | none => .skip
+  | .sha3 => pushN m rest (beNat (H (specRead m.mem (back st 0).toNat (back st 1).toNat)))
+  | .address => pushN m rest env.address
+  | .origin => pushN m rest env.origin
+  | .caller => pushN m rest env.caller
+  | .callvalue => pushN m rest env.callvalue
+  | .calldataload => pushN m rest (beNat (specRead env.calldata (back st 0).toNat 32))
+  | .calldatasize => pushN m rest env.calldata.length
+  | .calldatacopy =>
+    .cont [] { m with stack := rest, mem := specWrite m.mem (back st 0).toNat (specRead env.calldata (back st 1).toNat (back st 2).toNat) }
+  | .codesize => pushN m rest env.code.size
+  | .codecopy =>
+    .cont [] { m with stack := rest, mem := specWrite m.mem (back st 0).toNat (specRead env.code.toList (back st 1).toNat (back st 2).toNat) }
+  | .gasprice => pushN m rest env.gasprice
+  | .returndatasize => pushN m rest env.returndata.length
+  | .returndatacopy =>
+    -- EIP-211: reading past the end of the return data buffer is an exceptional halt
+    if (back st 1).toNat + (back st 2).toNat > env.returndata.length then .fail .rdoob
+    else .cont [] { m with stack := rest, mem := specWrite m.mem (back st 0).toNat (specRead env.returndata (back st 1).toNat (back st 2).toNat) }
+  | .coinbase => pushN m rest env.coinbase
+  | .timestamp => pushN m rest env.timestamp
+  | .number => pushN m rest env.number
+  | .difficulty => pushN m rest env.difficulty
+  | .gaslimit => pushN m rest env.gaslimit
+  | .pop => .cont [] { m with stack := rest }
+  | .mload => pushN m rest (beNat (specRead m.mem (back st 0).toNat 32))
+  | .mstore => .cont [] { m with stack := rest, mem := specWrite m.mem (back st 0).toNat (specWord (back st 1).toNat) }
+  | .mstore8 => .cont [] { m with stack := rest, mem := specWrite m.mem (back st 0).toNat [UInt8.ofNat ((back st 1).toNat % 256)] }
+  | .jump =>
+    if EvmSpec.validJumpdest env.code.toList (back st 0).toNat then .cont [] { m with stack := rest, pc := (back st 0).toNat }
+    else .fail .badjump
+  | .jumpi =>
+    if back st 1 ≠ 0 then
+      (if EvmSpec.validJumpdest env.code.toList (back st 0).toNat then .cont [] { m with stack := rest, pc := (back st 0).toNat }
+       else .fail .badjump)
+    else .cont [] { m with stack := rest, pc := m.pc + 1 }
+  | .pc => pushN m rest m.pc
+  | .msize => pushN m rest m.mem.length
+  | .gas => pushN m rest m.gas
+  | .jumpdest => .cont [] m
+  | .ret => .cont (specRead m.mem (back st 0).toNat (back st 1).toNat) { m with stack := rest }
+  | .other => .skip
+
+-- ---------------------------------------------------------------------------------------------------------------------
+-- the loop
+
+def fetch (env : Env) (pc : Nat) : Nat := if h : pc < env.code.size then env.code[pc].toNat else 0
+
+/-- Interpreter.Run: fetch (STOP past the end), table lookup, validateStack, [guard], prologue (memory size, gas), resize,
+    execute, then `reverts` / `halts` / `!jumps → pc++` from the table flags. -/
+def run (env : Env) (lookup : Nat → Option Entry) (pre : Entry → Nat → Machine → Except Outcome Pre)
+    (exec : Entry → Nat → Machine → Step) (guard : Entry → Nat → Machine → Bool) : Nat → Machine → Outcome
   | 0, _ => .fuel
   | fuel + 1, m =>
-    let opc := if h : m.pc < env.code.size then env.code[m.pc].toNat else 0
+    let opc := fetch env m.pc
     match lookup opc with
     | none => .fail .invalid
-    | some row =>
-      if m.stack.length < row.pops then .fail .underflow
-      else if m.stack.length + row.pushes - row.pops > 1024 then .fail .limit
+    | some en =>
+      if m.stack.length < en.pops then .fail .underflow
+      else if m.stack.length + en.pushes - en.pops > 1024 then .fail .limit
+      else if guard en opc m then .deviation
       else
-        match pre opc m with
+        match pre en opc m with
         | .error o => o
         | .ok p =>
           if p.cost > m.gas then .fail .oog
           else
             let m1 := { m with gas := m.gas - p.cost, last := p.last, mem := if p.memorySize > 0 then memGrow m.mem p.memorySize else m.mem }
-            match exec env alu jumpOk row opc m1 with
+            match exec en opc m1 with
             | .skip => .skip opc
             | .fail f => .fail f
-            | .halt ret => if row.reverts then .revert ret m1.gas m1.stack else .ok ret m1.gas m1.stack
-            | .next m2 => run env lookup pre alu jumpOk fuel m2
+            | .cont ret m2 =>
+              if en.reverts then .revert ret m1.gas m1.stack
+              else if en.halts then .ok ret m1.gas m1.stack
+              else run env lookup pre exec guard fuel (if en.jumps then m2 else { m2 with pc := m2.pc + 1 })
+
+def noGuard : Entry → Nat → Machine → Bool := fun _ _ _ => false
+
+/-- the two recorded deviation operand sets:
+    (1) SAR with shift ≥ 256 and value 0;
+    (2) an instruction whose memory request, rounded up to words, lies in (0x1fffffffe0, 0xffffffffe0] bytes. -/
+def devSet (en : Entry) (opc : Nat) (m : Machine) : Bool :=
+  (opc == 0x1d && decide (back m.stack 0 ≥ 256) && decide (back m.stack 1 = 0)) ||
+  (let t := touchOf en.memK m.stack
+   decide (t.2 ≠ 0) &&
+   (let r := 32 * EvmSpec.words (t.1.toNat + t.2.toNat)
+    decide (0x1fffffffe0 < r) && decide (r ≤ 0xffffffffe0)))
 
 -- ---------------------------------------------------------------------------------------------------------------------
--- Impl instantiation: everything table-dependent comes from the generated table, by function name
+-- Impl instantiation: the generated table, read by function name
 
-def implLookup (e : Epoch) (opc : Nat) : Option OpRow :=
-  (implInfoAt e opc).map fun i => { pops := i.pops, pushes := i.pushes, halts := i.halts, jumps := i.jumps, reverts := i.reverts }
+def memKindOfName (s : String) : MemKind :=
+  if s == "" then .none
+  else if s == "memorySha3" || s == "memoryReturn" || s == "memoryRevert" then .b0b1
+  else if s == "memoryCallDataCopy" || s == "memoryCodeCopy" || s == "memoryReturnDataCopy" then .b0b2
+  else if s == "memoryMLoad" || s == "memoryMStore" then .b0c32
+  else if s == "memoryMStore8" then .b0c1
+  else .unknown
 
-/-- operation.memorySize by the name the compiled table holds -/
-def implMemSize (memFn : String) (st : List Int) : Option Int :=
-  match memFn with
-  | "" => some 0
-  | "memorySha3" => some (calcMemSize (back st 0) (back st 1))
-  | "memoryCallDataCopy" | "memoryCodeCopy" | "memoryReturnDataCopy" => some (calcMemSize (back st 0) (back st 2))
-  | "memoryMLoad" | "memoryMStore" => some (calcMemSize (back st 0) 32)
-  | "memoryMStore8" => some (calcMemSize (back st 0) 1)
-  | "memoryReturn" | "memoryRevert" => some (calcMemSize (back st 0) (back st 1))
-  | _ => none
+def gasKindOfName (s : String) : GasKind :=
+  if s == "gasExp" then .exp
+  else if s == "gasSha3" then .sha3
+  else if s == "gasCallDataCopy" || s == "gasCodeCopy" || s == "gasReturnDataCopy" then .copy
+  else if s == "gasMLoad" || s == "gasMStore" || s == "gasMStore8" then .veryLowMem
+  else if s == "gasReturn" || s == "gasRevert" then .memOnly
+  else .unknown
 
-def implPre (e : Epoch) (gt : GasTable) (opc : Nat) (m : Machine) : Except Outcome Pre :=
-  match implInfoAt e opc with
-  | none => .error (.fail .invalid)
-  | some info =>
-    match implMemSize info.memFn m.stack with
-    | none => .error (.skip opc)
-    | some msz =>
-      let memorySize? : Option UInt64 := if info.memFn == "" then some 0 else memorySizeOf msz
-      match memorySize? with
-      | none => .error (.fail .overflow)
-      | some ms =>
-        let mem : Mem := ⟨UInt64.ofNat m.mem.size, m.last⟩
-        let cost? : Option (Option UInt64) :=
-          match info.constGas with
-          | some g => some (some (UInt64.ofNat g))
-          | none =>
-            match info.gasFn with
-            | "gasExp" => some (gasExp (UInt64.ofNat gt.expByte) (back m.stack 1))
-            | "gasSha3" => some (gasSha3 mem ms (back m.stack 1))
-            | "gasCallDataCopy" | "gasCodeCopy" => some (gasCopy gasFastestStep mem ms (back m.stack 2))
-            | "gasMLoad" | "gasMStore" | "gasMStore8" => some (gasMemVeryLow mem ms)
-            | "gasReturn" | "gasRevert" => some (gasReturn mem ms)
-            | _ => none
-        match cost? with
-        | none => .error (.skip opc)
-        | some none => .error (.fail .oog)
-        | some (some c) =>
-          let last := if info.memFn == "" then m.last else
-            match memoryGasCost mem ms with
-            | some (_, mem') => mem'.lastGasCost
-            | none => m.last
-          .ok { memorySize := ms.toNat, cost := c.toNat, last := last }
+def implEntry (i : OpInfo) : Entry :=
+  { pops := i.pops, pushes := i.pushes, halts := i.halts, jumps := i.jumps, reverts := i.reverts,
+    memK := memKindOfName i.memFn,
+    gasK := match i.constGas with
+      | some g => .const g
+      | none => gasKindOfName i.gasFn }
+
+def implLookup (e : Epoch) (opc : Nat) : Option Entry := ((table e).find? (fun i => i.op == opc)).map implEntry
+
+/-- operation.gasCost by kind, on the UInt64 models -/
+def implCost (gt : GasTable) (k : GasKind) (mem : Mem) (ms : UInt64) (st : List Int) : Option UInt64 :=
+  match k with
+  | .const g => some (UInt64.ofNat g)
+  | .exp => gasExp (UInt64.ofNat gt.expByte) (back st 1)
+  | .sha3 => gasSha3 mem ms (back st 1)
+  | .copy => gasCopy gasFastestStep mem ms (back st 2)
+  | .veryLowMem => gasMemVeryLow mem ms
+  | .memOnly => gasReturn mem ms
+  | .unknown => none
+
+/-- `cost, err = operation.gasCost(...); if err != nil → ErrOutOfGas` -/
+def implFinish (co : Option UInt64) (ms : Nat) (last : UInt64) : Except Outcome Pre :=
+  match co with
+  | none => .error (.fail .oog)
+  | some c => .ok { memorySize := ms, cost := c.toNat, last := last }
+
+/-- Memory.lastGasCost after the gas function ran -/
+def implLast (mem : Mem) (ms : UInt64) : UInt64 :=
+  match memoryGasCost mem ms with
+  | some r => r.2.lastGasCost
+  | none => mem.lastGasCost
+
+def implPre (gt : GasTable) (en : Entry) (opc : Nat) (m : Machine) : Except Outcome Pre :=
+  if en.memK = .unknown ∨ en.gasK = .unknown then .error (.skip opc)
+  else
+    let t := touchOf en.memK m.stack
+    -- memSize, overflow := bigUint64(operation.memorySize(stack)); memorySize = SafeMul(toWordSize(memSize), 32)
+    let ms? : Option UInt64 := if en.memK = .none then some 0 else memorySizeOf (calcMemSize t.1 t.2)
+    match ms? with
+    | none => .error (.fail .overflow)
+    | some ms =>
+      let mem : Mem := ⟨UInt64.ofNat m.mem.length, m.last⟩
+      implFinish (implCost gt en.gasK mem ms m.stack) ms.toNat (implLast mem ms)
 
 -- ---------------------------------------------------------------------------------------------------------------------
 -- Spec instantiation: hand-written table, Yellow-Paper memory and gas on Nat
 
-def specLookup (level : Nat) (opc : Nat) : Option OpRow :=
-  (specRowAt level opc).map fun r =>
-    { pops := r.pops, pushes := r.pushes, halts := r.halts, jumps := r.jumps, reverts := r.reverts }
+def specMemKind (op : Nat) : MemKind :=
+  if op = 0x20 ∨ op = 0xf3 ∨ op = 0xfd then .b0b1
+  else if op = 0x37 ∨ op = 0x39 ∨ op = 0x3e then .b0b2
+  else if op = 0x51 ∨ op = 0x52 then .b0c32
+  else if op = 0x53 then .b0c1
+  else if op = 0x3c ∨ (0xa0 ≤ op ∧ op ≤ 0xa4) ∨ op = 0xf0 ∨ op = 0xf1 ∨ op = 0xf2 ∨ op = 0xf4 ∨ op = 0xfa then .unknown
+  else .none
 
-/-- the memory range an instruction touches (offset, length) -/
-def specTouch (opc : Nat) (st : List Int) : Option (Nat × Nat) :=
-  match opc with
-  | 0x20 | 0xf3 | 0xfd => some ((back st 0).toNat, (back st 1).toNat)
-  | 0x37 | 0x39 => some ((back st 0).toNat, (back st 2).toNat)
-  | 0x51 | 0x52 => some ((back st 0).toNat, 32)
-  | 0x53 => some ((back st 0).toNat, 1)
-  | _ => none
+def specGasKind (r : EvmSpec.Row) : GasKind :=
+  match r.gas with
+  | some g => .const g
+  | none =>
+    if r.op = 0x0a then .exp
+    else if r.op = 0x20 then .sha3
+    else if r.op = 0x37 ∨ r.op = 0x39 ∨ r.op = 0x3e then .copy
+    else if r.op = 0x51 ∨ r.op = 0x52 ∨ r.op = 0x53 then .veryLowMem
+    else if r.op = 0xf3 ∨ r.op = 0xfd then .memOnly
+    else .unknown
 
-def specPre (level expByte : Nat) (opc : Nat) (m : Machine) : Except Outcome Pre :=
-  match specRowAt level opc with
-  | none => .error (.fail .invalid)
-  | some row =>
-    let cur := m.mem.size / 32
-    let new := match specTouch opc m.stack with
-      | some (off, len) => EvmSpec.memExpand cur off len
-      | none => cur
+def specEntry (r : EvmSpec.Row) : Entry :=
+  { pops := r.pops, pushes := r.pushes, halts := r.halts, jumps := r.jumps, reverts := r.reverts,
+    memK := specMemKind r.op, gasK := specGasKind r }
+
+def specTab0 : List EvmSpec.Row := EvmSpec.opcodeTable 0
+def specTab1 : List EvmSpec.Row := EvmSpec.opcodeTable 1
+def specTab2 : List EvmSpec.Row := EvmSpec.opcodeTable 2
+def specTab3 : List EvmSpec.Row := EvmSpec.opcodeTable 3
+
+/-- the table of a fork level (levels above 3 do not exist), as constants so that the driver builds each once -/
+def specTab (level : Nat) : List EvmSpec.Row :=
+  match level with
+  | 0 => specTab0
+  | 1 => specTab1
+  | 2 => specTab2
+  | _ => specTab3
+
+def specRowAt (level opc : Nat) : Option EvmSpec.Row := (specTab level).find? (fun r => r.op == opc)
+
+def specLookup (level : Nat) (opc : Nat) : Option Entry := (specRowAt level opc).map specEntry
+
+/-- the part of the cost that is not memory expansion -/
+def specExtra (expByte : Nat) (k : GasKind) (st : List Int) : Nat :=
+  match k with
+  | .const g => g
+  | .exp => EvmSpec.gasExp expByte (back st 1).toNat
+  | .sha3 => EvmSpec.gasSha3 (back st 1).toNat
+  | .copy => EvmSpec.gasCopy 3 (back st 2).toNat
+  | .veryLowMem => 3
+  | .memOnly => 0
+  | .unknown => 0
+
+/-- an unpayable expansion is never materialised -/
+def specFinish (gas cost ms : Nat) (last : UInt64) : Except Outcome Pre :=
+  if cost > gas then .error (.fail .oog) else .ok { memorySize := ms, cost := cost, last := last }
+
+def specPre (expByte : Nat) (en : Entry) (opc : Nat) (m : Machine) : Except Outcome Pre :=
+  if en.memK = .unknown ∨ en.gasK = .unknown then .error (.skip opc)
+  else
+    let t := touchOf en.memK m.stack
+    let off := t.1.toNat
+    let len := t.2.toNat
+    let cur := m.mem.length / 32
+    let new := EvmSpec.memExpand cur off len
     let memFee := EvmSpec.cmem new - EvmSpec.cmem cur
-    let extra? : Option Nat :=
-      match row.gas with
-      | some g => some g
-      | none =>
-        match opc with
-        | 0x0a => some (EvmSpec.gasExp expByte (back m.stack 1).toNat)
-        | 0x20 => some (EvmSpec.gasSha3 (back m.stack 1).toNat)
-        | 0x37 | 0x39 => some (EvmSpec.gasCopy 3 (back m.stack 2).toNat)
-        | 0x51 | 0x52 | 0x53 => some 3
-        | 0xf3 | 0xfd => some 0
-        | _ => none
-    match extra? with
-    | none => .error (.skip opc)
-    | some extra =>
-      let cost := memFee + extra
-      -- an unpayable expansion is never materialised
-      if cost > m.gas then .error (.fail .oog)
-      else .ok { memorySize := if new > cur then new * 32 else 0, cost := cost, last := m.last }
+    specFinish m.gas (memFee + specExtra expByte en.gasK m.stack) (if len = 0 then 0 else 32 * EvmSpec.words (off + len))
+      (UInt64.ofNat (EvmSpec.cmem new))
 
-def startMachine (gas : Nat) : Machine := { pc := 0, stack := [], mem := #[], last := 0, gas := gas }
+def startMachine (gas : Nat) : Machine := { pc := 0, stack := [], mem := [], last := 0, gas := gas }
 
-def runImpl (env : Env) (e : Epoch) (gt : GasTable) (gas : Nat) : Outcome :=
-  run env (implLookup e) (implPre e gt) implAlu (fun d => hasJumpdest env.code d) (gas + 2) (startMachine gas)
+def runImpl (env : Env) (H : Bytes → Bytes) (e : Epoch) (gt : GasTable) (guard : Entry → Nat → Machine → Bool) (fuel : Nat) (m : Machine) : Outcome :=
+  run env (implLookup e) (implPre gt) (implExec env H) guard fuel m
 
-def runSpec (env : Env) (level expByte : Nat) (sarKnown : Bool) (gas : Nat) : Outcome :=
-  run env (specLookup level) (specPre level expByte) (specAlu sarKnown)
-    (fun d => EvmSpec.validJumpdest env.code.toList d.toNat) (gas + 2) (startMachine gas)
+def runSpec (env : Env) (H : Bytes → Bytes) (level expByte : Nat) (guard : Entry → Nat → Machine → Bool) (fuel : Nat) (m : Machine) : Outcome :=
+  run env (specLookup level) (specPre expByte) (specExec env H) guard fuel m
 
 end Aqv.Evm
